@@ -455,6 +455,9 @@ def history(seed, steps):
                 else:
                     m = message.SignalMessage('/o', 'S', 'org.e.I0', destination=dest, signature='s', body=body)
                 m.sender = ':1.999'                       # forged
+                # header flags are part of the message whatever its type: forwarded as they were sent
+                m.expectReply = rnd.random() < 0.6
+                m.autoStart = rnd.random() < 0.6
                 m._marshal(False)
                 for q in live:
                     q.drain()
@@ -468,6 +471,9 @@ def history(seed, steps):
                     for x in got:
                         if x.sender != a.name or x.serial != m.serial or x._messageType != m._messageType:
                             return 'step %d: delivered with sender %r serial %r (true sender %s, serial %d)' % (step, x.sender, x.serial, a.name, m.serial)
+                        if (x.expectReply, x.autoStart) != (m.expectReply, m.autoStart):
+                            return 'step %d: message of type %d sent with the flags expectReply=%r autoStart=%r arrived with %r %r' % (
+                                step, kind + 1, m.expectReply, m.autoStart, x.expectReply, x.autoStart)
                         if kind in (1, 2) and x.reply_serial != rs:
                             return 'step %d: a reply to serial %d delivered as a reply to %r' % (step, rs, x.reply_serial)
                         # unchanged except for the sender: the reply-serial header keeps its wire type (UINT32)
@@ -690,9 +696,39 @@ def withdrawn_claim_case():
     return None
 
 
+def takeover_by_waiter_case():
+    """A owns a name and allows replacement, B and C wait; B - already waiting - takes the name over with REPLACE_EXISTING, then
+    releases it: from then on nothing addressed to the name reaches B, whoever of the remaining claimants owns it"""
+    from txdbus import message
+    net = Net()
+    a, b, c, d = [net.connect() for _ in range(4)]
+    for p, flags, want in ((a, 1, 1), (b, 0, 2), (c, 0, 2), (b, 2, 1)):
+        got = p.call_bus('RequestName', 'su', ['org.e.T', flags]).body[0]
+        if got != want:
+            return 'RequestName(flags %d) by %s answered %r, expected %r' % (flags, p.name, got, want)
+    for p in (a, b, c, d):
+        p.drain()
+    m = message.MethodCallMessage('/o', 'M', interface='org.e.I0', destination='org.e.T', signature='s', body=['to-the-new-owner'])
+    d.send(m)
+    got = {p.name: len([x for x in p.drain() if getattr(x, 'body', None) == ['to-the-new-owner']]) for p in (a, b, c, d)}
+    if got != {a.name: 0, b.name: 1, c.name: 0, d.name: 0}:
+        return 'after the waiter %s took the name over, a call for it was delivered %r' % (b.name, got)
+    rc = b.call_bus('ReleaseName', 's', ['org.e.T']).body[0]
+    if rc != 1:
+        return 'ReleaseName by the owner answered %r' % rc
+    for p in (a, b, c, d):
+        p.drain()
+    m = message.MethodCallMessage('/o', 'M', interface='org.e.I0', destination='org.e.T', signature='s', body=['after-the-release'])
+    d.send(m)
+    got = {p.name: len([x for x in p.drain() if getattr(x, 'body', None) == ['after-the-release']]) for p in (a, b, c, d)}
+    if got[b.name] != 0 or got[d.name] != 0 or got[a.name] + got[c.name] != 1:
+        return 'the waiter %s took the name over and released it; a later call for the name was delivered %r' % (b.name, got)
+    return None
+
+
 def bounded(tier, seed):
     n = 0
-    for case in (late_loss_of_refused_connection_case, order_case, prehello_case, dead_subscriber_case, takeover_case, namespace_subscription_case, forged_wellknown_sender_case, big_endian_client_case, withdrawn_claim_case):
+    for case in (late_loss_of_refused_connection_case, order_case, prehello_case, dead_subscriber_case, takeover_case, namespace_subscription_case, forged_wellknown_sender_case, big_endian_client_case, withdrawn_claim_case, takeover_by_waiter_case):
         n += 1
         try:
             f = case()
